@@ -17,7 +17,9 @@ META = {
             "real promql.Engine over a real TSDB as one range query and as instant queries at every step; the two answers must be equal "
             "(series, timestamps, float bits NaN-aware, histograms); offset-law pairs likewise. The reference prediction is a second oracle.",
     "note": "Bounded: exhaustive part 1 series x <=3 samples, expressions of <=2 wrappers, 4 steps, step in {1,2,3}; 2 series x <=2 samples; "
-            "larger alphabets (2 series x 4 samples, 4 wrappers, up to 6 steps, unaligned ends, negative times) only by seeded simulation. "
+            "series of up to ~110 samples whose density changes (runs spaced 1 / 6, 21 samples per 20 ms window) for count/first_over_time "
+            "over range selectors and subqueries, 11 steps; larger alphabets (2 series x 4 samples, 4 wrappers, up to 6 steps, unaligned ends, "
+            "negative times) only by seeded simulation. "
             "@ start()/end() are excluded (the property excludes queries that refer to the query range). Aggregations and binary operators "
             "are not in this generator (C29/C30 modules may extend PromqlEval). Range/instant results that agree with each other but not "
             "with the reference are reported as drift (they are C28 violations, not C27).",
@@ -71,6 +73,12 @@ def run(ctx):
     ctx.account(dense)
     behs += dense.emitted
     ctx.log("RQ_dense: %d generated / %d distinct, %d cases" % (dense.generated, dense.distinct, len(dense.emitted)))
+    # density changes along the series (runs of 24 / 44 samples spaced 1 or 6): >16 and >32 samples per window after the
+    # buffered iterator's ring has wrapped, floats, histograms and mixes, range selectors and subqueries
+    den = ctx.tlc("promql_eval", "RangeQuery", "RQ_density.cfg", workers=W, timeout=1500)
+    ctx.account(den)
+    behs += den.emitted
+    ctx.log("RQ_density: %d generated / %d distinct, %d cases" % (den.generated, den.distinct, len(den.emitted)))
     if not q:
         big = ctx.tlc("promql_eval", "RangeQuery", "RQ_big.cfg", workers=W, timeout=3000)
         ctx.account(big)
